@@ -24,10 +24,10 @@ const repoMod = "github.com/enbility/spine-go"
 type Prog struct {
 	stableMemo map[*ssa.Function]string
 	instances  map[*ssa.Function][]*ssa.Function
-	RepoDir string
-	Fset    *token.FileSet
-	Pkgs    map[string]*packages.Package // by import path (repo packages and their deps)
-	All     []*packages.Package
+	RepoDir    string
+	Fset       *token.FileSet
+	Pkgs       map[string]*packages.Package // by import path (repo packages and their deps)
+	All        []*packages.Package
 
 	SSA     *ssa.Program
 	SSAPkgs map[string]*ssa.Package
